@@ -289,7 +289,7 @@ def _r4_r5(chk, repo, model):
     chk.add("C12-R5", inst, not problems, site(repo, src), "parse -> validate names -> single input -> apply(forward_func, range, domain)", "; ".join(problems), src)
     pa_src = repo.method(model, "_parse_args_add_to_kwargs")[1]
     from .common import canon_fn
-    pa = canon_fn(repo, model, pa_src, 1)
+    pa = canon_fn(repo, model, pa_src, 4)          # aliases of self._non_default_args substituted
     gp = CFG(pa)
     store = [n for n in gp.nodes if isinstance(n.ast, ast.Assign) and isinstance(n.ast.targets[0], ast.Subscript) and path_of(n.ast.targets[0].value) == "kwargs"]
     ok = len(store) == 1 and any(guarded(gp, store[0], p_, lab) for p_, lab in (("0<len(kwargs)", "F"), ("len(kwargs)==0", "T"), ("kwargs", "F"))) \
